@@ -1,6 +1,72 @@
+mod c42;
+mod c43;
+mod db;
+
+use std::alloc::{GlobalAlloc, Layout, System};
+
+/// Allocation probe: behaves exactly like the system allocator, but a request
+/// of >= 1 GiB is first logged to stderr together with the innermost pallas
+/// frame that asked for it. When such a request then aborts the (worker)
+/// process, the C43 parent can name the allocation site.
+struct Probe;
+
+const BIG: usize = 1 << 30;
+
+fn note(size: usize) {
+    let bt = std::backtrace::Backtrace::force_capture().to_string();
+    let mut site = String::from("unknown-site");
+    for l in bt.lines() {
+        if let Some(i) = l.find("pallas_") {
+            let mut s = l[i..].trim().to_string();
+            // drop a trailing symbol hash `::h0123456789abcdef`
+            if let Some(j) = s.rfind("::h") {
+                if s.len() - j == 19 && s[j + 3..].chars().all(|c| c.is_ascii_hexdigit()) {
+                    s.truncate(j);
+                }
+            }
+            site = s;
+            break;
+        }
+    }
+    eprintln!("BIGALLOC {size} {site}");
+}
+
+unsafe impl GlobalAlloc for Probe {
+    unsafe fn alloc(&self, l: Layout) -> *mut u8 {
+        if l.size() >= BIG {
+            note(l.size());
+        }
+        System.alloc(l)
+    }
+    unsafe fn alloc_zeroed(&self, l: Layout) -> *mut u8 {
+        if l.size() >= BIG {
+            note(l.size());
+        }
+        System.alloc_zeroed(l)
+    }
+    unsafe fn dealloc(&self, p: *mut u8, l: Layout) {
+        System.dealloc(p, l)
+    }
+    unsafe fn realloc(&self, p: *mut u8, l: Layout, n: usize) -> *mut u8 {
+        if n >= BIG {
+            note(n);
+        }
+        System.realloc(p, l, n)
+    }
+}
+
+#[global_allocator]
+static ALLOC: Probe = Probe;
+
 fn main() {
+    let args: Vec<String> = std::env::args().collect();
+    if args.get(1).map(|s| s.as_str()) == Some("__c43-worker") {
+        c43::worker(&args[2..]);
+    }
     let ctx = mc_core::Ctx::from_args();
     match ctx.prop.as_str() {
-        p => mc_core::report::machinery_failure(&format!("mc-hardano does not serve {p} yet")),
+        "C42" => c42::run(ctx),
+        "C43" => c43::run(ctx),
+        p => mc_core::report::machinery_failure(&format!("mc-hardano does not serve {p}")),
     }
 }
